@@ -12,42 +12,42 @@ Open Scope N_scope.
    ERROR with code 1, 2 or 4, or exactly one transfer start whose (filename, mode, options) are the
    decoding of the datagram, with a mode other than mail, handled by the first accepting handler. *)
 Theorem C09_request_port_total : forall hs d,
-  exists acts, process_request hs d = Ok acts /\ serve_one hs d = acts /\ reaction_ok hs d acts.
+  exists acts, process_request true hs d = Ok acts /\ serve_one true hs d = acts /\ reaction_ok hs d acts.
 Proof. exact request_port_total. Qed.
 Print Assumptions C09_request_port_total.
 
-Theorem C09_request_port_no_internal_error : forall hs d, ~ In ALogExc (serve_one hs d).
+Theorem C09_request_port_no_internal_error : forall hs d, ~ In ALogExc (serve_one true hs d).
 Proof. exact request_port_no_internal_error. Qed.
 Print Assumptions C09_request_port_no_internal_error.
 
 (* which reaction for which datagram: short -> nothing; unknown opcode -> nothing; WRQ -> ERROR 2;
    DATA/ACK/ERROR/OACK -> ERROR 4; undecodable RRQ or mode mail -> ERROR 4; no handler -> ERROR 1 *)
 Theorem C09_request_port_codes : forall hs d,
-  ((length d < 2)%nat -> serve_one hs d = []) /\
+  ((length d < 2)%nat -> serve_one true hs d = []) /\
   (forall hi lo r, d = hi :: lo :: r ->
-     (u16 hi lo = 2 -> serve_one hs d = [ASendError 2]) /\
-     (3 <= u16 hi lo <= 6 -> serve_one hs d = [ASendError 4]) /\
-     (u16 hi lo = 0 \/ 7 <= u16 hi lo -> serve_one hs d = []) /\
-     (u16 hi lo = 1 -> decode_rrq d = None -> serve_one hs d = [ASendError 4]) /\
-     (u16 hi lo = 1 -> forall fn o, decode_rrq d = Some (fn, Mail, o) -> serve_one hs d = [ASendError 4]) /\
+     (u16 hi lo = 2 -> serve_one true hs d = [ASendError 2]) /\
+     (3 <= u16 hi lo <= 6 -> serve_one true hs d = [ASendError 4]) /\
+     (u16 hi lo = 0 \/ 7 <= u16 hi lo -> serve_one true hs d = []) /\
+     (u16 hi lo = 1 -> decode_rrq d = None -> serve_one true hs d = [ASendError 4]) /\
+     (u16 hi lo = 1 -> forall fn o, decode_rrq d = Some (fn, Mail, o) -> serve_one true hs d = [ASendError 4]) /\
      (u16 hi lo = 1 -> forall fn m o, decode_rrq d = Some (fn, m, o) -> m <> Mail ->
-        first_accepting hs O fn = None -> serve_one hs d = [ASendError 1])).
+        first_accepting hs O fn = None -> serve_one true hs d = [ASendError 1])).
 Proof. exact request_port_codes. Qed.
 Print Assumptions C09_request_port_codes.
 
 (* a well-formed RFC 1350/2347 read request (clean = NUL-free ASCII; mode in any letter case) starts a
    transfer with exactly the file name, mode and option dictionary the client meant *)
-Theorem C09_request_decoding_is_rfc : forall hs fn md m opts i,
+Theorem C09_request_decoding_is_rfc : forall sendable hs fn md m opts i,
   clean fn -> clean md -> mode_of_str md = Some m -> m <> Mail ->
   Forall (fun p => clean (fst p) /\ clean (snd p)) opts ->
   first_accepting hs O fn = Some i ->
-  serve_one hs (encode_rrq fn md opts) = [AStart fn m (dict_of opts) i].
+  serve_one sendable hs (encode_rrq fn md opts) = [AStart fn m (dict_of opts) i].
 Proof. exact request_decoding_is_rfc. Qed.
 Print Assumptions C09_request_decoding_is_rfc.
 
 (* ... and only datagrams of that shape start a transfer *)
-Theorem C09_start_only_for_rfc_shape : forall hs d f m o i,
-  In (AStart f m o i) (serve_one hs d) ->
+Theorem C09_start_only_for_rfc_shape : forall sendable hs d f m o i,
+  In (AStart f m o i) (serve_one sendable hs d) ->
   exists fn md opts,
     d = encode_rrq fn md opts /\ nul_free fn /\ nul_free md /\ pairs_nul_free opts /\
     f = ascii_ignore fn /\ mode_of_str (ascii_ignore md) = Some m /\ m <> Mail /\
@@ -56,16 +56,59 @@ Proof. exact start_only_for_rfc_shape. Qed.
 Print Assumptions C09_start_only_for_rfc_shape.
 
 (* the executable checker used on the implementation's reactions accepts the model *)
-Theorem C09_port_holds : forall hs d, port_holds hs d (serve_one hs d) = [].
+Theorem C09_port_holds : forall hs d, port_holds true hs d (serve_one true hs d) = [].
 Proof. exact port_holds_model. Qed.
 Print Assumptions C09_port_holds.
+
+(* Fault dimension: the reply cannot be sent (sendto raises OSError, e.g. EINVAL for a requester with
+   source port 0).  The same reaction is attempted - at most one sendto call -, the OSError is logged
+   by the catch-all exactly when a reply was due (known finding D22: a traceback caused by a
+   client-controlled source port), and nothing else changes; datagrams that need no reply and
+   transfer starts are unaffected. *)
+Theorem C09_request_port_unsendable : forall hs d,
+  serve_one false hs d = port_spec hs d ++ (if existsb is_send (port_spec hs d) then [ALogExc] else []) /\
+  reaction_ok hs d (port_spec hs d).
+Proof. exact request_port_unsendable. Qed.
+Print Assumptions C09_request_port_unsendable.
+
+(* the checker reports that situation under the clause port_reply_unsendable_logged and no other *)
+Theorem C09_port_holds_unsendable : forall hs d,
+  port_holds false hs d (serve_one false hs d) =
+  if existsb is_send (port_spec hs d) then ["C09:port_reply_unsendable_logged"%string] else [].
+Proof. exact port_holds_unsendable. Qed.
+Print Assumptions C09_port_holds_unsendable.
+
+(* the serve loop keeps serving: every datagram that arrives (truncated to 512 bytes by recvfrom) gets
+   its reaction, whatever arrived before it and whether or not earlier replies could be sent *)
+Theorem C09_serve_loop_total : forall hs reqs,
+  run_loop false hs reqs = map (fun r => serve_one (fst r) hs (firstn MAX_REQUEST_PACKET_SIZE (snd r))) reqs.
+Proof. exact run_loop_total. Qed.
+Print Assumptions C09_serve_loop_total.
+
+(* a loop that leaves on OSError stops serving after one reply that cannot be sent *)
+Theorem C09_serve_loop_break_refuted :
+  exists hs reqs, (length (run_loop true hs reqs) < length reqs)%nat /\ length (run_loop false hs reqs) = length reqs.
+Proof. exact run_loop_break_refuted. Qed.
+Print Assumptions C09_serve_loop_break_refuted.
+
+(* the constructor of _TftpReadRequest, which runs in the request-port thread, cannot raise on option
+   values: int() is reached only for strings the FULL-match regular expression accepts, even with
+   int() modelled as raising on everything that is not a plain digit string *)
+Theorem C09_transfer_constructor_total : forall fn m o i, m <> Mail -> start_transfer fn m o i = Ok [AStart fn m o i].
+Proof. exact start_transfer_ok. Qed.
+Print Assumptions C09_transfer_constructor_total.
 
 (* non-vacuity: a mixed-case request with a duplicated option name is decoded and handed to the
    second handler; a request without the final NUL is refused *)
 Example C09_port_nonvacuous :
-  serve_one [HExact (lit "x"); HPrefix (lit "pxe")]
+  serve_one true [HExact (lit "x"); HPrefix (lit "pxe")]
     (encode_rrq (lit "pxelinux.0") (lit "OcTeT") [(lit "blksize", lit "1428"); (lit "tsize", lit "0"); (lit "blksize", lit "9")])
   = [AStart (lit "pxelinux.0") Octet [(lit "blksize", lit "9"); (lit "tsize", lit "0")] 1] /\
-  serve_one [HConst true] (0 :: 1 :: lit "f" ++ 0 :: lit "octet") = [ASendError 4] /\
-  serve_one [HConst true] [0; 9; 1; 2] = [] /\ serve_one [] [0] = [].
+  serve_one true [HConst true] (0 :: 1 :: lit "f" ++ 0 :: lit "octet") = [ASendError 4] /\
+  serve_one true [HConst true] [0; 9; 1; 2] = [] /\ serve_one true [] [0] = [] /\
+  (* near-numbers as option values do not disturb the port: the transfer starts, negotiation ignores them *)
+  serve_one true [HConst true] (encode_rrq (lit "f") (lit "octet") [(lit "blksize", lit "1024x"); (lit "TIMEOUT", lit "5s")])
+  = [AStart (lit "f") Octet [(lit "blksize", lit "1024x"); (lit "TIMEOUT", lit "5s")] 0] /\
+  (* a write request from source port 0: one attempt, logged *)
+  serve_one false [HConst true] [0; 2] = [ASendError 2; ALogExc].
 Proof. vm_compute. repeat split; reflexivity. Qed.
